@@ -134,8 +134,10 @@ def features (S : Schema) (t : Test) : List String :=
   (if r.any (fun x => hasMatch S x.2.1) then ["nested-match"] else []) ++
   (if r.any (fun x => hasComputed S x.2.1) then ["nested-computed"] else []) ++
   -- the emitters name test locals after packets / members in one flat scope
-  (if names.eraseDups.length < names.length || names.contains t.pkt || members.eraseDups.length < members.length
-   then ["local-name-clash"] else []) ++
+  -- … an object member's local after the MEMBER (`unit0`, `unit := …`), a match payload's local after its PACKET (`leg`): two
+  -- locals of one name anywhere in the flattened sample clash; one packet held under two different member names does not
+  (let locals := r.map fun x => (if x.2.2.1 then x.2.2.2 else x.2.1).toLower
+   if names.contains t.pkt || locals.eraseDups.length < locals.length then ["local-name-clash"] else []) ++
   (if r.any (fun x => x.2.2.1 && hasMatch S x.2.1) then ["match-holder-by-value"] else [])
 
 def reportJ (S : Schema) (P : Prog) (fl : Flags) (fuel : Nat) (t : Test) : Json :=
